@@ -16,6 +16,7 @@ history spec `Kap.Spec.C01`. They hold for EVERY flap-detection function `flap` 
 the per-point input flag "the ID is flapping here".
 -/
 import Kap.Proofs.C01Flap
+import Kap.Proofs.C01Decl
 namespace Kap.Props.C01
 open Kap.C01
 
@@ -138,6 +139,18 @@ theorem event_payload (c : Cfg) (hc : c.WF) (flap : FlapFn) (s : St) (tr : Track
     | none => rw [hq] at hs; cases hs
     | some since => exact ⟨since, rfl, by simp⟩
   · cases hev
+
+/-- **"the time since the ID last left OK"**, without any running state: the quantity `leftOK` the durations of
+`event_payload` are measured from is, after any stream history, the time of the LAST position `j` of the plain level
+sequence with `level j ≠ OK` and `level (j−1) = OK` (OK before the first point) — or untouched when the history has no
+such position. A theorem about the spec itself: its fold is the declarative reading of the statement. -/
+theorem duration_since_left_ok (c : Cfg) (ps : List Pt) (fls : List Bool) (tr : Track) (h : fls.length = ps.length) :
+    let L := levelsOf c tr.level ps
+    let r := (trackAfter c tr (ps.zip fls)).leftOK
+    (∃ j, j < ps.length ∧ leavesOKAt tr.level L j ∧ (∀ j', j < j' → j' < ps.length → ¬ leavesOKAt tr.level L j') ∧
+          r = some ((ps.map (·.t)).getD j 0)) ∨
+    ((∀ j, j < ps.length → ¬ leavesOKAt tr.level L j) ∧ r = tr.leftOK) :=
+  leftOK_is_last_departure c ps fls tr h
 
 /-! ### Whole histories -/
 
@@ -286,5 +299,12 @@ example :
   decide
 
 example : Rel { history := 2 } (newAlertState { history := 2 }) {} := rel_init _ ⟨by decide, by decide⟩
+
+/-- `duration_since_left_ok` on WARNING, OK, WARNING, WARNING at times 1 2 3 4: positions 0 and 2 leave OK, 2 is the last -/
+example :
+    let c : Cfg := { warn := true }
+    let ps : List Pt := [{ t := 1, w := some true }, { t := 2 }, { t := 3, w := some true }, { t := 4, w := some true }]
+    levelsOf c 0 ps = [2, 0, 2, 2] ∧ (trackAfter c {} (ps.zip [false, false, false, false])).leftOK = some 3 := by
+  decide
 
 end Kap.Props.C01
